@@ -135,7 +135,13 @@ impl<'g> Args<'g> {
     }
     /// any value of `kind`; its parameters are supplied by the following extra_params()
     pub fn enum_any(&mut self, kind: &str) -> u32 {
-        let v = self.gen().enum_value(kind, &mut self.rng);
+        // mostly a value that HAS parameters (the additional_params argument must then be carried over)
+        let with_params: Vec<u32> = match &self.g.kinds[kind] {
+            KindG::ValueEnum { values } => values.iter().filter(|v| !v.1.is_empty()).map(|v| v.0).collect(),
+            KindG::BitEnum { bits, .. } => bits.iter().filter(|b| !b.1.is_empty()).map(|b| b.0).collect(),
+            KindG::Other => vec![],
+        };
+        let v = if !with_params.is_empty() && self.rng.chance(3, 4) { *self.rng.pick(&with_params) } else { self.gen().enum_value(kind, &mut self.rng) };
         self.flat_w(v);
         self.last_enum = Some((kind.to_string(), v));
         v
